@@ -27,6 +27,7 @@ import (
 type segConn struct {
 	segs     [][]byte
 	consumed int
+	readDL   time.Time // the read deadline the code under test last set (zero = none)
 	net.Conn
 }
 
@@ -42,11 +43,11 @@ func (c *segConn) Read(p []byte) (int, error) {
 	c.consumed += n
 	return n, nil
 }
-func (c *segConn) Close() error                     { return nil }
-func (c *segConn) SetDeadline(time.Time) error      { return nil }
-func (c *segConn) SetReadDeadline(time.Time) error  { return nil }
-func (c *segConn) SetWriteDeadline(time.Time) error { return nil }
-func (c *segConn) Write(p []byte) (int, error)      { return len(p), nil }
+func (c *segConn) Close() error                      { return nil }
+func (c *segConn) SetDeadline(t time.Time) error     { c.readDL = t; return nil }
+func (c *segConn) SetReadDeadline(t time.Time) error { c.readDL = t; return nil }
+func (c *segConn) SetWriteDeadline(time.Time) error  { return nil }
+func (c *segConn) Write(p []byte) (int, error)       { return len(p), nil }
 
 // realHello captures the ClientHello of a crypto/tls client.
 func realHello(cfg *tls.Config) []byte {
@@ -353,6 +354,9 @@ func runOp(op string, rep *hx.Report, c *hcase) string {
 		var err error
 		info, err = tc.HelloInfo()
 		switch {
+		case err == nil && info == nil:
+			res = "nil-without-error"
+			rep.Fail("helloinfo-nil-without-error", "HelloInfo returned neither a result nor an error (its caller dereferences the result)", []string{op})
 		case err == nil:
 			res = "ok"
 		case strings.Contains(err.Error(), "not TLS"):
@@ -363,8 +367,11 @@ func runOp(op string, rep *hx.Report, c *hcase) string {
 			res = "err:eof"
 		}
 	}()
-	if res == "panic" {
-		return "hello=panic reads="
+	if res == "panic" || res == "nil-without-error" {
+		return "hello=" + res + " reads="
+	}
+	if !sc.readDL.IsZero() {
+		rep.Fail("sniffer-leaves-a-deadline-on-the-connection", "after HelloInfo returned the connection still has the read deadline the sniffer set: every later read of the stream fails once it passes", []string{op})
 	}
 	if sc.consumed > 5+65535 {
 		rep.Fail("hello-unbounded-read", fmt.Sprintf("HelloInfo pulled %d bytes from the connection", sc.consumed), []string{op})
